@@ -27,6 +27,9 @@ type vfCaseC13 struct {
 	Start   int
 	Len     int
 	FileLen int
+	// WriteTo: the chunk right below the lowest failing one comes back short by this many bytes - the
+	// "(partial read, next error)" pattern the package documents for regular files (seed C13-e)
+	ShortBy int `json:",omitempty"`
 	Fails   []vfFail
 	Window  int
 	Order   []int
@@ -99,6 +102,9 @@ func vfGenC13(t *rapid.T) vfCaseC13 {
 		code := rapid.SampledFrom(codes).Draw(t, "code")
 		c.Fails = append(c.Fails, vfFail{k, code})
 		_ = first
+	}
+	if c.API == "WriteTo" && c.Opts.MaxPacket > 1 && rapid.IntRange(0, 2).Draw(t, "short") == 0 {
+		c.ShortBy = rapid.IntRange(1, c.Opts.MaxPacket-1).Draw(t, "shortby")
 	}
 	return c
 }
@@ -209,6 +215,9 @@ func vfRunC13(ctx *vfCtx, c vfCaseC13) {
 		p.failAt = failAt
 		p.window = c.Window
 		p.order = c.Order
+		if c.ShortBy > 0 && lowest >= c.Start+mp && c.API == "WriteTo" {
+			p.shortRead = map[uint64]int{uint64(lowest - mp): mp - c.ShortBy}
+		}
 	})
 	if err != nil {
 		ctx.Failf("harness/handshake", "%v", err)
